@@ -1411,3 +1411,128 @@ Proof.
   { unfold sys_init. now apply nth_error_repeat. }
   rewrite E. now apply model_satisfies_oracle.
 Qed.
+
+(* ================================================================== *)
+(** * 5. connections that come and go *)
+
+(** a connection that begins starts from the initial state, whatever the
+    slot held before (an earlier connection's state, or nothing) *)
+Theorem slot_start_fresh ks now c : slot_step ks now c LStart = (Some (stack_init ks), ([], [])).
+Proof. reflexivity. Qed.
+
+(** while connected, a slot behaves as a session *)
+Lemma slot_run_ops ks now ls ops :
+  slot_run ks now (Some ls) (List.map LOp ops) =
+  (Some (fst (sess_run now ls ops)), snd (sess_run now ls ops)).
+Proof.
+  revert ls. induction ops as [|o ops IH]; intro ls; [reflexivity|].
+  cbn [List.map slot_run slot_step sess_run].
+  destruct (sess_step now ls o) as [ls1 ob]. rewrite IH.
+  destruct (sess_run now ls1 ops) as [ls2 obs]. reflexivity.
+Qed.
+
+Lemma slot_run_app ks now c a b :
+  slot_run ks now c (a ++ b) =
+  let (c1, oa) := slot_run ks now c a in
+  let (c2, ob) := slot_run ks now c1 b in (c2, oa ++ ob).
+Proof.
+  revert c. induction a as [|l a IH]; intro c; cbn [app slot_run].
+  - destruct (slot_run ks now c b); reflexivity.
+  - destruct (slot_step ks now c l) as [c1 o]. rewrite IH.
+    destruct (slot_run ks now c1 a) as [c2 oa]. destruct (slot_run ks now c2 b) as [c3 ob]. reflexivity.
+Qed.
+
+(** [connection_fresh]: after any history whatsoever in the slot, a
+    connection that begins shows exactly what a session run from the initial
+    state shows on its operations: nothing of what earlier connections did
+    (subscriptions they left open, event ids they saw) is visible *)
+Theorem connection_fresh ks now c before ops :
+  snd (slot_run ks now c (before ++ LStart :: List.map LOp ops)) =
+  snd (slot_run ks now c before) ++ ([], []) :: snd (sess_run now (stack_init ks) ops).
+Proof.
+  rewrite slot_run_app. destruct (slot_run ks now c before) as [c1 oa].
+  cbn [slot_run slot_step]. rewrite slot_run_ops. reflexivity.
+Qed.
+
+Theorem lsys_step_other ks now sy i j l :
+  i <> j -> nth_error (fst (lsys_step ks now sy i l)) j = nth_error sy j.
+Proof.
+  intro H. unfold lsys_step. destruct (nth_error sy i) as [c|]; [|reflexivity].
+  destruct (slot_step ks now c l) as [c' ob]. cbn [fst]. now apply nth_error_upd_other.
+Qed.
+
+Theorem lsys_step_local ks now sy i l c :
+  nth_error sy i = Some c ->
+  snd (lsys_step ks now sy i l) = snd (slot_step ks now c l) /\
+  nth_error (fst (lsys_step ks now sy i l)) i = Some (fst (slot_step ks now c l)).
+Proof.
+  intro H. unfold lsys_step. rewrite H. destruct (slot_step ks now c l) as [c' ob]. cbn [fst snd].
+  split; [reflexivity|]. eapply nth_error_upd_same; eauto.
+Qed.
+
+(** [slots_independent]: in every interleaved history of connections that
+    begin, talk and end in any number of slots, what slot [j] shows is what
+    running its own history alone gives *)
+Theorem slots_independent ks now h : forall sy j c,
+  nth_error sy j = Some c ->
+  nth_error (fst (lsys_run ks now sy h)) j = Some (fst (slot_run ks now c (proj j h))) /\
+  proj j (combine (List.map fst h) (snd (lsys_run ks now sy h))) = snd (slot_run ks now c (proj j h)).
+Proof.
+  induction h as [|[i l] h IH]; intros sy j c H; [split; [exact H | reflexivity]|].
+  cbn [lsys_run proj List.map fst].
+  destruct (lsys_step ks now sy i l) as [sy1 ob] eqn:E.
+  destruct (Nat.eqb i j) eqn:Eij.
+  - apply Nat.eqb_eq in Eij. subst i.
+    destruct (lsys_step_local ks now sy j l c H) as [A B]. rewrite E in A, B. cbn [fst snd] in A, B.
+    cbn [slot_run]. destruct (slot_step ks now c l) as [c1 ob1] eqn:E1. cbn [fst snd] in A, B. subst ob1.
+    destruct (IH sy1 j c1 B) as [C D].
+    destruct (lsys_run ks now sy1 h) as [sy2 obs]. destruct (slot_run ks now c1 (proj j h)) as [c2 obs'].
+    cbn [fst snd combine proj] in *. rewrite Nat.eqb_refl. split; [exact C | now f_equal].
+  - apply Nat.eqb_neq in Eij.
+    pose proof (lsys_step_other ks now sy i j l Eij) as A. rewrite E in A. cbn [fst] in A. rewrite H in A.
+    destruct (IH sy1 j c A) as [C D].
+    destruct (lsys_run ks now sy1 h) as [sy2 obs]. cbn [fst snd combine proj] in *.
+    apply Nat.eqb_neq in Eij. rewrite Eij. split; assumption.
+Qed.
+
+(** the oracle's state of a slot describes the model's state of that slot *)
+Definition slot_sim (c : slot) (sc : option (list slayer)) : Prop :=
+  match c, sc with
+  | None, None => True
+  | Some ls, Some sl => Forall2 sim ls sl
+  | _, _ => False
+  end.
+
+Theorem life_satisfies_oracle_from ks now h : Forall wf_k ks -> forall c sc,
+  slot_sim c sc -> sp_life_run now ks sc h (snd (slot_run ks now c h)) = true.
+Proof.
+  intro W. induction h as [|l h IH]; intros c sc S; [reflexivity|].
+  cbn [slot_run]. destruct l as [| |o]; cbn [slot_step].
+  - specialize (IH (Some (stack_init ks)) (Some (sp_stack_init ks)) (sim_init ks W)).
+    destruct (slot_run ks now (Some (stack_init ks)) h) as [c2 obs]. cbn [fst snd sp_life_run obs_empty andb] in *.
+    exact IH.
+  - specialize (IH None None I).
+    destruct (slot_run ks now None h) as [c2 obs]. cbn [fst snd sp_life_run obs_empty andb] in *. exact IH.
+  - destruct c as [ls|], sc as [sl|]; try contradiction.
+    + cbn [slot_sim] in S. destruct (sim_step_op now o ls sl S) as (sl' & A & B).
+      destruct (sess_step now ls o) as [ls1 ob]. cbn [fst snd] in *.
+      specialize (IH (Some ls1) (Some sl') B).
+      destruct (slot_run ks now (Some ls1) h) as [c2 obs]. cbn [fst snd sp_life_run] in *. now rewrite A.
+    + specialize (IH None None I).
+      destruct (slot_run ks now None h) as [c2 obs]. cbn [fst snd sp_life_run obs_empty andb] in *. exact IH.
+Qed.
+
+(** [life_model_satisfies_oracle]: one middleware value, any number of slots,
+    any interleaving of connections beginning, talking and ending: every
+    slot's own view is accepted by the oracle of the correspondence check,
+    which judges every connection from the initial state of the text *)
+Theorem life_model_satisfies_oracle now ks n h j :
+  Forall wf_k ks -> (j < n)%nat ->
+  sp_life_run now ks None (proj j h)
+              (proj j (combine (List.map fst h) (snd (lsys_run ks now (lsys_init n) h)))) = true.
+Proof.
+  intros W L.
+  destruct (slots_independent ks now h (lsys_init n) j None) as [_ E].
+  { unfold lsys_init. now apply nth_error_repeat. }
+  rewrite E. now apply life_satisfies_oracle_from.
+Qed.
